@@ -134,6 +134,10 @@ func c01Config(p c01Policy) world.Config {
 		cfg.EvmTracer = "json"
 	case 2:
 		cfg.EvmTracer = "struct"
+	case 3:
+		cfg.EvmTracer = "access_list"
+	case 4:
+		cfg.EvmTracer = "markdown"
 	}
 	return cfg
 }
@@ -249,14 +253,14 @@ func c01Exec(c c01Case, p c01Policy) (vec []string, hits c01Hits, outcome string
 	defer func() { vrt.MapOrder, vrt.Clock, vrt.OnSpawn = nil, nil, nil }()
 
 	hits["cfg:min-gas-prices"] = 2
-	hits["cfg:tracer"] = 3
+	hits["cfg:tracer"] = 5 // every value server/config accepts: "", json, struct, access_list, markdown
 	hits["between"] = 4
 	if p["cfg:tracer"] != 0 {
-		// the tracer of the node configuration writes every step to os.Stderr
+		// the tracer of the node configuration writes every step to os.Stderr (json) or os.Stdout (markdown)
 		if null, err := os.OpenFile(os.DevNull, os.O_WRONLY, 0); err == nil {
-			saved := os.Stderr
-			os.Stderr = null
-			defer func() { os.Stderr = saved; null.Close() }()
+			savedErr, savedOut := os.Stderr, os.Stdout
+			os.Stderr, os.Stdout = null, null
+			defer func() { os.Stderr, os.Stdout = savedErr, savedOut; null.Close() }()
 		}
 	}
 	w := world.New(c01Config(p))
@@ -421,6 +425,9 @@ func c01Signature(p c01Policy, ref, got []string) string {
 			return "C01/destroy-guard-reads-wall-clock"
 		case strings.HasPrefix(k, "map:state_db.go") && sameHash:
 			return "C01/commit-event-order-follows-map-iteration"
+		case k == "cfg:tracer" && p[k] == 3 && !strings.Contains(strings.Join(ref, "|"), "code=111222") && strings.Contains(strings.Join(got, "|"), "code=111222"):
+			// the access_list tracer of the node configuration panicked (recovered by baseapp as code 111222) where the default node did not
+			return "C01/access-list-tracer-panics-on-contract-creation"
 		}
 	}
 	return ""
